@@ -227,3 +227,18 @@ def rnd_ident(rng):
     if r < 0.75:
         return rng.choice(HOSTILE)
     return rnd_text(rng)
+
+
+def known_key(c, v, known):
+    """a violation is covered by a known finding when every key of the finding's `match` agrees (a list value means: one of)"""
+    for f in known:
+        ok = True
+        for k, val in f["match"].items():
+            got = v.get(k)
+            if isinstance(val, list):
+                ok = ok and got in val
+            else:
+                ok = ok and got == val
+        if ok:
+            return f["key"]
+    return None
